@@ -156,3 +156,72 @@ Definition unl_starts (k : nat) : list mwop := map (fun t => MStart t wthr) (seq
 Definition unl_checks (k : nat) : list mwop := map MCheck (seq 0 k).
 Definition unl_writes (k : nat) : list mwop := flat_map (fun t => [MLockOp t; MDo t; MUnlock t; MRet t]) (seq 0 k).
 Definition unl_schedule (k : nat) : list mwop := unl_starts k ++ unl_checks k ++ unl_writes k.
+
+(* ------------------------------------------------------------------ *)
+(* (vii) SCTPConn.Read called from any number of goroutines             *)
+(* ------------------------------------------------------------------ *)
+(* Read as the sections it consists of under readMutex: Lock, the refill of the intermediate buffer (or the bypass
+   for a large caller buffer) -- QFill --, the hand-out from the buffer -- QCopy --, the deferred Unlock.  Refill and
+   hand-out are SEPARATE steps on the shared buffer, so that the mutex matters: other goroutines' steps may come
+   in between (they can only start or wait for the mutex). *)
+Local Close Scope N_scope.
+Inductive mrpc :=
+| QIdle
+| QWant (n : nat)      (* inside readMutex.Lock() *)
+| QIn1 (n : nat)       (* holds the mutex, before the refill test *)
+| QIn2 (n : nat)       (* holds the mutex, buffer non-empty or refilled, before the hand-out *)
+| QGot (r : rres).     (* result computed, the deferred Unlock is pending *)
+
+Record mrst := mkMR { mr_rst : rst; mr_script : mscript; mr_lock : option nat; mr_pcs : nat -> mrpc;
+                      mr_log : list (nat * rres) }.   (* (size, result) of the completed Reads, in the order of their critical sections *)
+Definition mr_init (s : mscript) : mrst := mkMR rinit s None (fun _ => QIdle) [].
+
+Inductive mrop := QStart (t n : nat) | QLockOp (t : nat) | QFill (t : nat) | QCopy (t : nat) | QUnlock (t : nat).
+
+(* the hand-out half of Read: copy from the buffer, advance the offset, attach the error to the last byte *)
+Definition read_copy (st : rst) (n : nat) : rst * bytes * option err :=
+  let out := firstn n (skipn (roff st) (rbuf st)) in
+  let off := (roff st + length out)%nat in
+  (mkR (rbuf st) off (rerr st), out, if (off =? length (rbuf st))%nat then rerr st else None).
+
+Definition mr_step (mx : nat) (eos : err) (st : mrst) (op : mrop) : mrst :=
+  match op with
+  | QStart t n =>
+      match mr_pcs st t with
+      | QIdle => mkMR (mr_rst st) (mr_script st) (mr_lock st) (updn (mr_pcs st) t (QWant n)) (mr_log st)
+      | _ => st
+      end
+  | QLockOp t =>
+      match mr_pcs st t, mr_lock st with
+      | QWant n, None => mkMR (mr_rst st) (mr_script st) (Some t) (updn (mr_pcs st) t (QIn1 n)) (mr_log st)
+      | _, _ => st
+      end
+  | QFill t =>
+      match mr_pcs st t with
+      | QIn1 n =>
+          let full := (roff (mr_rst st) =? length (rbuf (mr_rst st)))%nat in
+          if full && (mx <=? n)%nat then
+            let '(s', d, e) := sread eos (mr_script st) n in
+            mkMR (mr_rst st) s' (mr_lock st) (updn (mr_pcs st) t (QGot (d, e))) (mr_log st ++ [(n, (d, e))])
+          else if full then
+            let '(s', d, e) := sread eos (mr_script st) mx in
+            mkMR (mkR d 0 e) s' (mr_lock st) (updn (mr_pcs st) t (QIn2 n)) (mr_log st)
+          else mkMR (mr_rst st) (mr_script st) (mr_lock st) (updn (mr_pcs st) t (QIn2 n)) (mr_log st)
+      | _ => st
+      end
+  | QCopy t =>
+      match mr_pcs st t with
+      | QIn2 n =>
+          let '(r', o, e) := read_copy (mr_rst st) n in
+          mkMR r' (mr_script st) (mr_lock st) (updn (mr_pcs st) t (QGot (o, e))) (mr_log st ++ [(n, (o, e))])
+      | _ => st
+      end
+  | QUnlock t =>
+      match mr_pcs st t with
+      | QGot _ => mkMR (mr_rst st) (mr_script st) None (updn (mr_pcs st) t QIdle) (mr_log st)
+      | _ => st
+      end
+  end.
+Definition mr_run (mx : nat) (eos : err) (st : mrst) (ops : list mrop) : mrst := fold_left (mr_step mx eos) ops st.
+Definition q_holds (p : mrpc) : bool := match p with QIn1 _ | QIn2 _ | QGot _ => true | _ => false end.
+
